@@ -23,12 +23,8 @@ func verifC34Timeout(rm *RegistrationManager, reg *DecoyRegistration) *DecoyTime
 		return nil
 	}
 	ph, id := reg.PhantomIp.String(), t.GetIdentifier(reg)
-	for _, to := range r.decoysTimeouts {
-		if to.decoy == ph && to.identifier == id {
-			return to
-		}
-	}
-	return nil
+	// by the registry's own key, so that the record's bookkeeping fields are not named here
+	return r.decoysTimeouts[timeoutIndex(ph, id)]
 }
 
 // VerifC34TimeoutUsed reports whether a timeout record exists for the registration and whether it
